@@ -36,6 +36,7 @@ type Clause struct {
 	Expr  CExpr
 	Line  int
 	File  string
+	Own   bool // (invariant inference) the clause was written for this very loop
 }
 
 type LoopContract struct {
